@@ -10,11 +10,64 @@ from . import catalog
 from .common import muted, mask, rng, shard_slice
 
 
-def sweep_entry(run, entry, cfgs, rnd, tier, deadline):
+def build_aliased(entry, cfg, mode):
+    """Build entry with input ports of equal width connected to one shared wire (all of them, or adjacent pairs).
+    Returns (ins, outs, sim, hw) with ins in port order (the shared wire repeated), or (None, reason, None, None)."""
     import py4hw
+    hw0 = py4hw.HWSystem()
+    calls = []
+
+    def mk0(name, w):
+        x = hw0.wire(name, w)
+        calls.append(x)
+        return x
+    try:
+        with muted():
+            ins0, outs0 = entry.build(hw0, cfg, mk0)
+    except Exception:
+        return None, 'plain_build_failed', None, None
+    is_in = [any(c is i for i in ins0) for c in calls]
+    hw = py4hw.HWSystem()
+    made = []
+    state = dict(k=0, by_width={})
+
+    def mk(name, w):
+        k = state['k']
+        state['k'] += 1
+        if k < len(is_in) and is_in[k]:
+            lst = state['by_width'].setdefault(w, [])
+            lst.append(None)
+            n = len(lst) - 1
+            share = n > 0 if mode == 'alias_all' else n % 2 == 1
+            if share:
+                x = lst[0] if mode == 'alias_all' else lst[n - 1]
+                lst[n] = x
+                state['shared'] = True
+                return x
+            x = hw.wire(name, w)
+            lst[n] = x
+            return x
+        return hw.wire(name, w)
+    try:
+        with muted():
+            ins, outs = entry.build(hw, cfg, mk)
+            if not state.get('shared'):
+                return None, 'nothing_to_share', None, None
+            sim = hw.getSimulator()
+    except Exception:
+        return None, 'refused', None, None
+    return ins, outs, sim, hw
+
+
+def sweep_entry(run, entry, cfgs, rnd, tier, deadline, hostile=None):
+    import py4hw
+    import contextlib
     exhaustive_bits = 12 if tier == 'quick' else 14
     max_cases = 400 if tier == 'quick' else 12000
     n_random = 40 if tier == 'quick' else 4000
+    if hostile:
+        exhaustive_bits, max_cases, n_random = 8, 96 if tier == 'quick' else 600, 24 if tier == 'quick' else 200
+    extra = (dict(shared_inputs=hostile) if hostile.startswith('alias') else dict(caller_list=hostile)) if hostile else {}
     nconf = 0
     for cfg in cfgs:
         if time.time() > deadline:
@@ -22,16 +75,36 @@ def sweep_entry(run, entry, cfgs, rnd, tier, deadline):
             continue
         hw = py4hw.HWSystem()
         try:
-            with muted():
-                ins, outs = entry.build(hw, cfg, hw.wire)
-                sim = hw.getSimulator()
+            if hostile and hostile.startswith('alias'):
+                ins, outs, sim, hw = build_aliased(entry, cfg, hostile)
+                if ins is None:
+                    run.count('aliased_build_' + outs)
+                    continue
+                run.count('configs_with_shared_input_wires')
+            else:
+                with muted(), (catalog.hostile_lists(hostile) if hostile else contextlib.nullcontext()) as hl:
+                    ins, outs = entry.build(hw, cfg, hw.wire)
+                    sim = hw.getSimulator()
+            if hostile and not hostile.startswith('alias'):
+                if not hl.lists_seen:
+                    continue          # no list argument: nothing new to observe
+                run.count('configs_with_caller_list_reused')
         except Exception as e:
             # a configuration the catalogue calls legal must build; not building is reported
             run.violation('%s_build_raises' % entry.prop.lower(), dict(block=entry.name),
-                          dict(block=entry.name, cfg=cfg), observed=repr(e)[:200], what='%s%r does not build: %r' % (entry.name, cfg, e))
+                          dict(block=entry.name, cfg=cfg, **extra), observed=repr(e)[:200], what='%s%r does not build: %r' % (entry.name, cfg, e))
             continue
         nconf += 1
         run.count('configs')
+        expand = None
+        if hostile and hostile.startswith('alias'):
+            # one value per distinct wire; the reference sees it on every port that wire is connected to
+            uniq = []
+            for w in ins:
+                if not any(w is u for u in uniq):
+                    uniq.append(w)
+            expand = [next(k for k, u in enumerate(uniq) if u is w) for w in ins]
+            ins = uniq
         widths = [w.getWidth() for w in ins]
         ow = [o.getWidth() for o in outs]
         cases, exhaustive = catalog.input_cases(widths, rnd, exhaustive_bits, max_cases, n_random)
@@ -40,16 +113,18 @@ def sweep_entry(run, entry, cfgs, rnd, tier, deadline):
         nbad = 0
         first = True
         for vals in cases:
+            for w, v in zip(ins, vals):
+                w.put(v)
+            if expand is not None:
+                vals = tuple(vals[k] for k in expand)
             if entry.domain is not None and not entry.domain(cfg, vals):
                 run.count('outside_documented_domain')
                 continue
-            for w, v in zip(ins, vals):
-                w.put(v)
             try:
                 sim.propagateAll()
             except Exception as e:
                 run.violation('%s_sim_raises' % entry.prop.lower(), dict(block=entry.name),
-                              dict(block=entry.name, cfg=cfg, inputs=vals), observed=repr(e)[:200],
+                              dict(block=entry.name, cfg=cfg, inputs=vals, **extra), observed=repr(e)[:200],
                               what='%s%r raises in propagate: %r' % (entry.name, cfg, e))
                 break
             exp = entry.ref(cfg, vals)
@@ -66,15 +141,15 @@ def sweep_entry(run, entry, cfgs, rnd, tier, deadline):
                 if m != got[k]:
                     ok = False
                     run.violation('%s_value' % entry.prop.lower(), dict(block=entry.name, out=k),
-                                  dict(block=entry.name, cfg=cfg, inputs=vals, out=k), expected=m, observed=got[k],
-                                  what='%s%r inputs=%r out[%d] expected %d got %d' % (entry.name, cfg, vals, k, m, got[k]))
+                                  dict(block=entry.name, cfg=cfg, inputs=vals, out=k, **extra), expected=m, observed=got[k],
+                                  what='%s%r%s inputs=%r out[%d] expected %d got %d' % (entry.name, cfg, ' [%s]' % hostile if hostile else '', vals, k, m, got[k]))
                     break
             if not ok:
                 nbad += 1
                 if nbad >= 3:
                     break
             if reduced or any(vals) or not vals:
-                run.nt(hash((entry.name, cfg, tuple(vals))))
+                run.nt(hash((entry.name, cfg, tuple(vals), hostile)))
             if first:
                 first = False
             if run.evaluations % 9973 == 0:
@@ -94,6 +169,12 @@ def run_prop(run, prop, tier, seed, shard, seconds):
         rnd = rng(seed, prop, entry.name, shard)
         e0 = run.evaluations
         n = sweep_entry(run, entry, cfgs, rnd, tier, deadline)
+        # the same configurations built by a caller that reuses the list objects it passed
+        for k, mode in enumerate(('clear', 'reverse', 'rotate', 'fill')):
+            sweep_entry(run, entry, cfgs[k::4] if tier == 'quick' else cfgs, rnd, tier, deadline, hostile=mode)
+        # ... and with one wire connected to several input ports of the block
+        for mode in ('alias_all', 'alias_pairs'):
+            sweep_entry(run, entry, cfgs, rnd, tier, deadline, hostile=mode)
         per_block[entry.name] = dict(configs=n, evaluations=run.evaluations - e0)
         if n:
             run.sample(dict(block=entry.name, first_cfg=cfgs[0], configs=n))
